@@ -1,6 +1,7 @@
 package prop
 
 import (
+	"fmt"
 	"encoding/json"
 	"net/url"
 	"os"
@@ -217,8 +218,20 @@ func (c *Ctx) LiveCisco(cs *CiscoCase, o LiveOpts, sched *tape.Tape) *LiveResult
 	r.Res.Stderr = strings.ReplaceAll(r.Res.Stderr, w.Dir, "BASEDIR")
 	c.Res.SimSeconds += r.EndAt.Seconds()
 	c.EventHash(r.EvHash)
+	dumpLog(r.EvHash, r.Log)
 	return r
 }
+
+// dumpLog writes an event log to $VERIF_DUMPLOGS/<hash>.log (debugging aid of
+// the determinism self-test).
+func dumpLog(hash string, log []string) {
+	if d := os.Getenv("VERIF_DUMPLOGS"); d != "" {
+		dumpSeq++
+		os.WriteFile(filepath.Join(d, fmt.Sprintf("%06d-%s.log", dumpSeq, hash)), []byte(strings.Join(log, "\n")+"\n"), 0644)
+	}
+}
+
+var dumpSeq int
 
 // timeOfSeq extracts the simulated time of a log line.
 func timeOfSeq(log []string, seq int) time.Duration {
